@@ -99,6 +99,7 @@ theorem C32_never_live (env : Env) (w : World) (i : Nat) (op : Op) (hdead : w.al
     | collAssign a same => cases same <;> simp [hov]
     | useAsRef => simp [hov]; split <;> simp
     | collSelect a => simp only; split <;> simp
+    | collCreate a => simp [hov]; split <;> simp
     | flush => simp [hov]; repeat' split
                all_goals simp
     | _ => simp [hov, attrLoadOut, setLoadOut]
@@ -171,21 +172,46 @@ theorem C32_error_exact (env : Env) (w : World) (i : Nat) (o : Obj) (op : Op) (h
 
 /-! ### reads -/
 
-/-- a scalar / reference value held by the object is returned (non-strict; the object was not deleted) -/
+/-- a scalar / reference value held by the object is returned (non-strict; the object was not deleted).  For a reference to an entity
+    with subclasses the object must be detached (`_session_cache_ is None`, what `close` leaves when the session had a connection) -/
 theorem C32_read_held (env : Env) (w : World) (i : Nat) (o : Obj) (a : Attr) (vs : Vals) (s : Slot)
     (ho : w.objs[i]? = some o) (hv : o.vals = some vs) (hs : lookup vs a.id = some s) (hcoll : ∀ sd, s ≠ .coll sd)
-    (hst : a.isPk = true ∨ o.status.isGone = false) :
+    (hst : a.isPk = true ∨ o.status.isGone = false) (hsub : a.refSubclasses = true → o.hasCache = false) :
     (step env w i (.getAttr a)).out = .value (match s with | .val v => .int v | _ => .none) := by
+  have hcase : a.refSubclasses = false ∨ o.hasCache = false := by
+    by_cases hr : a.refSubclasses = true
+    · exact Or.inr (hsub hr)
+    · exact Or.inl (by simpa using hr)
   simp only [step, ho, attrGetDescr, attrGet, hv, hs]
-  rcases hst with hp | hg
-  · cases s with
-    | coll sd => exact absurd rfl (hcoll sd)
-    | val v => simp [hp]
-    | none => simp [hp]
-  · cases s with
-    | coll sd => exact absurd rfl (hcoll sd)
-    | val v => by_cases hp : a.isPk = true <;> simp [hp, hg]
-    | none => by_cases hp : a.isPk = true <;> simp [hp, hg]
+  cases s with
+  | coll sd => exact absurd rfl (hcoll sd)
+  | none => rcases hst with hp | hg
+            · simp [hp]
+            · by_cases hp : a.isPk = true <;> simp [hp, hg]
+  | val v =>
+    cases hw : w.objs[v.toNat]? with
+    | none =>
+      rcases hst with hp | hg
+      · simp [hp, hw]
+      · by_cases hp : a.isPk = true <;> simp [hp, hg, hw]
+    | some t =>
+      rcases hcase with hr | hc
+      · rcases hst with hp | hg
+        · simp [hp, hr]
+        · by_cases hp : a.isPk = true <;> simp [hp, hg, hr]
+      · rcases hst with hp | hg
+        · simp [hp, hc, hw]
+        · by_cases hp : a.isPk = true <;> simp [hp, hg, hc, hw]
+
+/-- the one held value that still needs the database: a reference, assigned by raw key in a session that never connected (so `close`
+    detached nothing), to an object known by key only whose entity has subclasses — `Attribute.get` wants its real class: session over -/
+theorem C32_read_seed_reference (env : Env) (w : World) (i : Nat) (o t : Obj) (a : Attr) (vs : Vals) (v : Int)
+    (hdead : w.alive = false) (ho : w.objs[i]? = some o) (hv : o.vals = some vs) (hs : lookup vs a.id = some (.val v))
+    (hp : a.isPk = false) (hg : o.status.isGone = false) (hsub : a.refSubclasses = true) (hc : o.hasCache = true)
+    (ht : w.objs[v.toNat]? = some t) (hts : t.seed = true) (htg : t.status.isGone = false) :
+    step env w i (.getAttr a) = ⟨w, .sessionOver .loadObject, []⟩ := by
+  have hov := over_of_dead w t hdead
+  simp [step, ho, attrGetDescr, attrGet, hv, hs, hp, hg, hsub, hc, ht, hts, htg, hov]
 
 /-- a value NOT held by the object needs the database: DatabaseSessionIsOver -/
 theorem C32_read_missing (env : Env) (w : World) (i : Nat) (o : Obj) (a : Attr) (vs : Vals)
